@@ -85,6 +85,7 @@ class SockWorld(worlds.World):
         self.reg = worlds.fresh_registry(self.gen)
         self.cat, self.fam = catalogue(self.gen)
         self.sock = S.AirTouchSocket(self.loop, "console", 9000 + self.gen, self.reg)
+        self._policies = {}
         self.calls = []        # every send() call: dict(idx, name, key, policy, t, status)
         self.delivered = []
         self.roots = [self.sock]
@@ -93,8 +94,12 @@ class SockWorld(worlds.World):
 
     # --- driver --------------------------------------------------------------------------------
     def policy(self, code):
-        r, life = POLICIES[code]
-        return self.S.RetryPolicy(max_retries=r, max_lifetime=life)
+        # one policy object per kind and world, shared by all sends - as the library's own callers share the
+        # module-level RETRY_* constants
+        if code not in self._policies:
+            r, life = POLICIES[code]
+            self._policies[code] = self.S.RetryPolicy(max_retries=r, max_lifetime=life)
+        return self._policies[code]
 
     def submit(self, entry, code):
         name, msg, typ, to, payload = entry
